@@ -16,6 +16,7 @@ import z3
 from .common import Check, run_parallel, Inconclusive, load_mir, Violation
 from .spelled import *
 from .alphabet import vocabulary_words
+from oracle.base import concrete_phrase
 from oracle.langs import LANGS
 from mirsym.parse import Term
 
@@ -44,9 +45,13 @@ def worker(ck: Check, code):
     words = vocabulary_words(mir, res, code)
     ck.per_lang[code] = {'vocabulary_words': len(words)}
     # two slots over the whole vocabulary: every arm of apply is reachable with an empty and with a non-empty builder
+    from oracle.langs import CORE_WORDS
+    first = [w for w in CORE_WORDS[code] if w in words][:10]
     wid = [z3.BitVec('w%d' % i, 16) for i in range(2)]
-    assm = [z3.ULT(w, len(words)) for w in wid]
-    slots = [[(w == i, words[i]) for i in range(len(words))] for w in wid]
+    assm = [z3.ULE(wid[0], len(first)), z3.ULT(wid[1], len(words))]
+    # slot 1: nothing or one of a few words that put the builder in its various states; slot 2: any vocabulary word
+    slots = [[(wid[0] == i + 1, first[i]) for i in range(len(first))] + [(wid[0] == 0, None)],
+             [(wid[1] == i, words[i]) for i in range(len(words))]]
     ex = make_executor(ck, assm)
     run_validator(ck, ex, L, slots)
     tslots, _, _ = token_slots(slots)
@@ -57,7 +62,7 @@ def worker(ck: Check, code):
             else z3.BoolVal(True)) for cond, w in events]
 
     def on_cex(m, fired=None):
-        ws = [words[m.eval(w, model_completion=True).as_long()] for w in wid]
+        ws = concrete_phrase(slots, m)
         nat = ck.native()
         text = ' '.join(ws)
         r = nat.t2d(code, text)
@@ -67,12 +72,11 @@ def worker(ck: Check, code):
         return {'key': {'lang': code, 'kind': 'output'}, 'reproduced': bool(out), 'replay': rep,
                 'what': '%s: processing %r writes to the standard streams: %r' % (code, text, out[:120])}
     ck.prove_none('%s:no-output' % code, assm, bad, on_cex, lambda m, c: None)
-    ck.cover('%s:vocabulary-reached' % code, assm, lambda m: {'lang': code, 'words': [
-        words[m.eval(w, model_completion=True).as_long()] for w in wid]})
+    ck.cover('%s:vocabulary-reached' % code, assm, lambda m: {'lang': code, 'words': concrete_phrase(slots, m)})
     # two-call query: a call after another call on the same interpreter value gives the same result as on a fresh one
     ex2 = make_executor(ck, assm)
     lang1 = H.lang_value(ex2, L.type_name)
-    r_first = ex2.explore('text2digits', [H.SlotPhrase(tuple(tuple(s) for s in slots[:1])), lang1])
+    r_first = ex2.explore('text2digits', [H.SlotPhrase(tuple(tuple(s) for s in slots[1:])), lang1])
     r_again = ex2.explore('text2digits', [H.SlotPhrase(tuple(tuple(s) for s in slots[1:])), lang1])
     ex3 = make_executor(ck, assm)
     lang2 = H.lang_value(ex3, L.type_name)
